@@ -53,6 +53,33 @@ func (e *Engine) heapGet(st *State, name string, sort Sort) Term {
 	return e.cur.log.declConst(name+"@"+st.epoch, sort)
 }
 
+// heapVersion: a constant that identifies the whole heap content of st (same content => same constant).
+func (e *Engine) heapVersion(st *State) Term {
+	names := make([]string, 0, len(st.heap))
+	for k := range st.heap {
+		names = append(names, k)
+	}
+	sort.Strings(names)
+	var sb []byte
+	sb = append(sb, st.epoch...)
+	for _, k := range names {
+		sb = append(sb, '|')
+		sb = append(sb, k...)
+		sb = append(sb, '=')
+		sb = append(sb, st.heap[k].S...)
+	}
+	sig := string(sb)
+	if e.cur.hvers == nil {
+		e.cur.hvers = map[string]Term{}
+	}
+	t, ok := e.cur.hvers[sig]
+	if !ok {
+		t = Term{fmt.Sprintf("hver!%d", len(e.cur.hvers)), SInt}
+		e.cur.hvers[sig] = t
+	}
+	return e.cur.log.declConst(t.S, SInt) // (re)declared in whichever log is active
+}
+
 func (e *Engine) heapSet(st *State, name string, t Term) {
 	e.cur.heapSorts[name] = t.Sort
 	st.heap[name] = e.cur.log.define(name, t)
